@@ -145,10 +145,12 @@ def zoo_program(fam, shape, kind):
     if fam == "matcomp": return None if shape != "row3" else [A, "y := [x | x <- a]"]
     if fam.startswith("join_") or fam.startswith("tbl"):
         if shape != "mat22": return None
-        ta = f"a := | k<u8> p<{kind}> | 1 {zlit(kind, 2)} | 2 {zlit(kind, 3)} | 2 {zlit(kind, 4)} |"
-        tb = f"b := | k<u8> q<{kind}> | 2 {zlit(kind, 5)} | 3 {zlit(kind, 6)} |"
+        # several rows WITHOUT a partner on either side (and a duplicate key): the order in which a kernel appends the unmatched rows
+        # must not depend on anything but the operands (hash-set iteration order differs per instance and per re-evaluation)
+        ta = f"a := | k<u8> p<{kind}> | 1 {zlit(kind, 2)} | 2 {zlit(kind, 3)} | 2 {zlit(kind, 4)} | 8 {zlit(kind, 5)} | 9 {zlit(kind, 6)} |"
+        tb = f"b := | k<u8> q<{kind}> | 2 {zlit(kind, 5)} | 3 {zlit(kind, 6)} | 4 {zlit(kind, 2)} | 5 {zlit(kind, 3)} | 6 {zlit(kind, 4)} | 7 {zlit(kind, 7)} |"
         op = {"join_inner": "a ⋈ b", "join_left": "a ⟕ b", "join_right": "a ⟖ b", "join_full": "a ⟗ b", "join_semi": "a ⋉ b", "join_anti": "a ▷ b",
-              "tblsel_i": "a[2]", "tblsel_v": "a[[1 3]]", "tblsel_m": "a[[true false true]]", "tblcol": "a.p"}[fam]
+              "tblsel_i": "a[2]", "tblsel_v": "a[[1 3]]", "tblsel_m": "a[[true false true false true]]", "tblcol": "a.p"}[fam]
         return [ta, tb, f"y := {op}"]
     if fam == "strcat": return None if (kind != "string" or shape != "scalar") else [A, B, "y := a + b"]
     if fam == "recfield": return None if shape != "scalar" else [f"a := {{p: {zlit(kind, 2)}, q: {zlit(kind, 3)}}}", "y := a.q"]
